@@ -90,6 +90,7 @@ func c17(c *core.Check) {
 	c17Determinant(c)
 	c17Computed(c)
 	c17ZeroAngles(c)
+	c17GradientBox(c)
 	c.Assume = []string{"float32/float64 conversions are treated as identity", "the group laws follow from the laws of 2x3 affine matrices once each routine equals its specification matrix (mathematics, not re-proved)"}
 
 	r1 := c.Rule("R1", "matrix package: Translation, Scaling, Rotation, Skew, Identity, New, Determinant, mult/Mul/Mul3, LeftMultBy, RightMultBy, Apply, Invert and the in-place Translate/Scale/Rotate/Skew have the specification normal forms", 16)
@@ -1020,5 +1021,44 @@ func c17ZeroAngles(c *core.Check) {
 	}
 	if n == 0 {
 		r.Anchor("callers of getAngle in css/validation")
+	}
+}
+
+// c17GradientBox: a gradient in objectBoundingBox units is scaled to the aspect of the box and then moved to the
+// box: the matrix starts as the translation to (x, y) and the scaling is composed on the right (T·S applies S first).
+// Composed on the left the translation itself is scaled and the gradient is shifted (x offset doubled for a box
+// twice as wide as high).  The linear and radial branches must agree.
+func c17GradientBox(c *core.Check) {
+	p := c.Prog
+	r := c.Rule("R8", "gradients in bounding-box units are scaled before they are moved to the box: in the paint method of SVG gradients every composition of the matrix with matrix.Scaling(…) is a RightMultBy (the matrix is the translation to the box: T·S scales first), in the linear and in the radial branch alike", 2)
+	var fn *ssa.Function
+	for _, f := range p.FuncsOfPkg("svg") {
+		if f.Name() == "paint" && f.Signature.Recv() != nil && strings.HasSuffix(f.Signature.Recv().Type().String(), "gradient") {
+			fn = f
+		}
+	}
+	if fn == nil {
+		r.Anchor("svg.gradient.paint")
+		return
+	}
+	n := 0
+	core.Instrs(fn, func(in ssa.Instruction) {
+		call, ok := in.(*ssa.Call)
+		if !ok || call.Call.StaticCallee() == nil || len(call.Call.Args) != 2 {
+			return
+		}
+		name := call.Call.StaticCallee().Name()
+		if name != "LeftMultBy" && name != "RightMultBy" {
+			return
+		}
+		arg, ok := call.Call.Args[1].(*ssa.Call)
+		if !ok || arg.Call.StaticCallee() == nil || arg.Call.StaticCallee().Name() != "Scaling" {
+			return
+		}
+		n++
+		r.Cond(name == "RightMultBy", fmt.Sprintf("svg.gradient.paint | bounding-box scaling #%d", n), p.Pos(call.Pos()), "composed on the right of the translation", "composed on the left: the translation to the box is scaled too, the gradient of `<rect x=10 y=20 width=100 height=50 fill=url(#linear)>` is handed to the backend with the matrix (2 0 0 1 20 20) instead of (2 0 0 1 10 20)")
+	})
+	if n < 2 {
+		r.Anchor(fmt.Sprintf("svg.gradient.paint: compositions with matrix.Scaling (%d found, 2 confirmed by reading)", n))
 	}
 }
